@@ -57,6 +57,11 @@ def run(chk):
         'distinct_nontrivial = distinct (manager kind, seed, call, k) at '
         'which the request actually fired')
     chk.mc('MC_Dyn', 'MC_Dyn_protected.cfg' if q else 'MC_Dyn_protected_deep.cfg')
+    for cfg in ('MC_Dyn_unprotected_retry.cfg', 'MC_Dyn_actual.cfg'):
+        r = tlcrun.model_check('MC_Dyn', cfg, 'neg', timeout=600)
+        if 'is violated' not in r['out']:
+            raise tlcrun.MachineryError('negative configuration %s was not refuted' % cfg)
+        chk.extra.setdefault('negative_configurations_refuted', []).append(cfg)
     tmp = os.path.join(chk.dir, 'tmp')
     tasks = []
     tid = 2000000
